@@ -287,7 +287,7 @@ void OPN2::noteOn(size_t c, double tone)
     // Hertz range: 0..131071
     double hertz = s_commonFreq(tone);
 
-    if(hertz < 0) // Avoid infinite loop
+    if(hertz < 0 || !(hertz <= 131071.0)) // Avoid infinite loop (out of range, infinity and NaN)
         return;
 
     double coef;
